@@ -4,59 +4,41 @@ Helper lemmas for C09: the cache invariant and its preservation.
 -/
 namespace PydraModel.FileHash
 
-/-- A cache entry is harmless for the file system `fs`: if the file at the entry's path has the entry's
-    mtime right now, then the entry was computed from the content the file has right now. -/
-def EntryOK (fs : FS) (k : Key) (v : Content) : Prop :=
-  ∀ c, fs k.path = some (c, k.mtime) → v = c
+/-- A cache entry is harmless for the file system `fs`: if every member of the entry's file-set has, right now,
+    exactly the mtime recorded in the key, then the entry was computed from the contents the members have
+    right now. -/
+def EntryOK (fs : FS) (k : Key) (v : List Content) : Prop :=
+  ∀ cms, readAll fs k.paths = some cms → cms.map Prod.snd = k.mtimes → v = cms.map Prod.fst
 
-/-- The invariant: every entry for key `(cls, p, m)` holds the content `p` has at every moment at which
-    `p`'s mtime is `m` (stated for "now"; the proof shows it is kept over any `MtimeFresh` history). -/
+/-- The invariant: every entry for key `(cls, paths, mtimes)` holds the contents the members have at every
+    moment at which their mtimes are `mtimes` (stated for "now"; kept over any `MtimeFresh` history). -/
 def Inv (st : State) : Prop :=
   (∀ e ∈ st.disk, EntryOK st.fs e.1 e.2) ∧ (∀ e ∈ st.mem, EntryOK st.fs e.1.2 e.2)
 
 theorem inv_init : Inv init := by
   constructor <;> intro e he <;> simp [init] at he
 
-theorem staleAt_false {st : State} {p : Path} :
-    staleAt st p = false ↔
-      (∀ e ∈ st.disk, e.1.path = p → EntryOK st.fs e.1 e.2) ∧
-      (∀ e ∈ st.mem, e.1.2.path = p → EntryOK st.fs e.1.2 e.2) := by
-  unfold staleAt EntryOK
-  cases hp : st.fs p with
-  | none =>
-    simp only [true_iff]
+theorem staleEntry_false {fs : FS} {k : Key} {v : List Content} :
+    staleEntry fs k v = false ↔ EntryOK fs k v := by
+  unfold staleEntry EntryOK
+  cases hr : readAll fs k.paths with
+  | none => simp
+  | some cms =>
+    simp only [Bool.and_eq_false_iff, beq_eq_false_iff_ne, ne_eq, bne_eq_false_iff_eq, Option.some.injEq]
     constructor
-    · intro e _ h c hc; rw [h, hp] at hc; cases hc
-    · intro e _ h c hc; rw [h, hp] at hc; cases hc
-  | some cm =>
-    obtain ⟨c, m⟩ := cm
-    simp only [Bool.or_eq_false_iff, List.any_eq_false, Bool.and_eq_true, beq_iff_eq, bne_iff_ne, ne_eq,
-      not_and, Decidable.not_not]
-    constructor
-    · rintro ⟨h1, h2⟩
-      constructor
-      · intro e he hpe c' hc'
-        rw [hpe, hp] at hc'
-        cases hc'
-        exact h1 e he ⟨hpe, rfl⟩
-      · intro e he hpe c' hc'
-        rw [hpe, hp] at hc'
-        cases hc'
-        exact h2 e he ⟨hpe, rfl⟩
-    · rintro ⟨h1, h2⟩
-      constructor
-      · intro e he hpe
-        exact h1 e he hpe.1 c (by rw [hpe.1, hp, hpe.2])
-      · intro e he hpe
-        exact h2 e he hpe.1 c (by rw [hpe.1, hp, hpe.2])
+    · intro h cms' hc hm
+      subst hc
+      rcases h with h | h
+      · exact absurd hm h
+      · exact h
+    · intro h
+      by_cases hm : cms.map Prod.snd = k.mtimes
+      · right; exact h cms rfl hm
+      · left; exact hm
 
-theorem inv_iff_noStale (st : State) : Inv st ↔ ∀ p, staleAt st p = false := by
-  constructor
-  · intro h p
-    exact staleAt_false.mpr ⟨fun e he _ => h.1 e he, fun e he _ => h.2 e he⟩
-  · intro h
-    exact ⟨fun e he => (staleAt_false.mp (h e.1.path)).1 e he rfl,
-           fun e he => (staleAt_false.mp (h e.1.2.path)).2 e he rfl⟩
+theorem inv_iff_noStale (st : State) : Inv st ↔ anyStale st = false := by
+  unfold Inv anyStale
+  simp only [Bool.or_eq_false_iff, List.any_eq_false, Bool.not_eq_true, staleEntry_false]
 
 theorem mem_of_lookup {α β} [BEq α] [LawfulBEq α] {k : α} {v : β} {l : List (α × β)}
     (h : l.lookup k = some v) : (k, v) ∈ l := by
@@ -74,57 +56,11 @@ theorem mem_of_lookup {α β} [BEq α] [LawfulBEq α] {k : α} {v : β} {l : Lis
     · simp only [hk] at h
       exact List.mem_cons_of_mem _ (ih h)
 
-/-- Frame property of the file operations: a path that is not `touched` keeps its state or disappears. -/
-theorem fsStep_frame (fs : FS) (op : Op) (x : Path) (hx : x ∉ touched op) :
-    fsStep fs op x = fs x ∨ fsStep fs op x = none := by
-  cases op with
-  | write p c t =>
-    simp [touched] at hx
-    simp [fsStep, FS.set, hx]
-  | utime p t =>
-    simp [touched] at hx
-    simp only [fsStep]
-    cases fs p with
-    | none => simp
-    | some cm => simp [FS.set, hx]
-  | rename p q =>
-    simp [touched] at hx
-    simp only [fsStep]
-    by_cases hpq : p = q
-    · simp [hpq]
-    · simp only [hpq, if_false]
-      cases fs p with
-      | none => simp
-      | some cm =>
-        by_cases hxp : x = p
-        · simp [FS.set, hxp]
-        · simp [FS.set, hxp, hx]
-  | copy2 p q =>
-    simp [touched] at hx
-    simp only [fsStep]
-    by_cases hpq : p = q
-    · simp [hpq]
-    · simp only [hpq, if_false]
-      cases fs p with
-      | none => simp
-      | some cm => simp [FS.set, hx]
-  | hash s cls p => simp [fsStep]
-  | hashFresh cls p => simp [fsStep]
-  | newProcess s => simp [fsStep]
-  | cleanUp vs => simp [fsStep]
-
-theorem entryOK_of_frame {fs fs' : FS} {k : Key} {v : Content}
-    (h : fs' k.path = fs k.path ∨ fs' k.path = none) (hok : EntryOK fs k v) : EntryOK fs' k v := by
-  intro c hc
-  rcases h with h | h
-  · rw [h] at hc; exact hok c hc
-  · rw [h] at hc; cases hc
-
 /-- The file system after a step is `fsStep` of the file system before (cache operations do not touch it). -/
 theorem step_fs (st : State) (op : Op) : (step st op).1.fs = fsStep st.fs op := by
-  have hw : ∀ sess cls p, (hashWith st sess cls p).1.fs = st.fs := by
-    intro sess cls p
-    unfold hashWith
+  have hw : ∀ sess cls ps, (hashWith st sess cls ps).1.fs = st.fs := by
+    intro sess cls ps
+    unfold hashWith hashWithK
     split
     · rfl
     · simp only
@@ -133,18 +69,19 @@ theorem step_fs (st : State) (op : Op) : (step st op).1.fs = fsStep st.fs op := 
       · split <;> rfl
   cases op <;> simp only [step, fsStep, hw]
 
-/-- What a hash operation does to the caches: nothing, or it adds entries for the key of the file as it is
-    now, computed from the content as it is now. -/
-theorem hashWith_spec (st : State) (sess : Option Sess) (cls : Cls) (p : Path) :
-    let r := hashWith st sess cls p
+/-- What a hash operation does to the caches: nothing, or it adds entries for the key of the members as they
+    are now, computed from the contents as they are now. -/
+theorem hashWith_spec (st : State) (sess : Option Sess) (cls : Cls) (ps : List Path) :
+    let r := hashWith st sess cls ps
     r.1.fs = st.fs ∧
-    (∀ e ∈ r.1.disk, e ∈ st.disk ∨ ∃ c m, st.fs p = some (c, m) ∧ e = (⟨cls, p, m⟩, c)) ∧
-    (∀ e ∈ r.1.mem, e ∈ st.mem ∨ ∃ s c m, st.fs p = some (c, m) ∧ e = ((s, ⟨cls, p, m⟩), c)) := by
-  unfold hashWith
-  cases hp : st.fs p with
+    (∀ e ∈ r.1.disk, e ∈ st.disk ∨
+      ∃ cms, readAll st.fs ps = some cms ∧ e = (⟨cls, ps, cms.map Prod.snd⟩, cms.map Prod.fst)) ∧
+    (∀ e ∈ r.1.mem, e ∈ st.mem ∨
+      ∃ s cms, readAll st.fs ps = some cms ∧ e = ((s, ⟨cls, ps, cms.map Prod.snd⟩), cms.map Prod.fst)) := by
+  unfold hashWith hashWithK keyOf
+  cases hp : readAll st.fs ps with
   | none => simp
-  | some cm =>
-    obtain ⟨c, m⟩ := cm
+  | some cms =>
     simp only
     split
     · exact ⟨rfl, fun e he => Or.inl he, fun e he => Or.inl he⟩
@@ -154,7 +91,7 @@ theorem hashWith_spec (st : State) (sess : Option Sess) (cls : Cls) (p : Path) :
         · intro e he
           simp only [List.mem_cons] at he
           rcases he with he | he
-          · right; exact ⟨c, m, rfl, he⟩
+          · right; exact ⟨cms, rfl, he⟩
           · left; exact he
         · intro e he
           cases sess with
@@ -162,38 +99,37 @@ theorem hashWith_spec (st : State) (sess : Option Sess) (cls : Cls) (p : Path) :
           | some s =>
             simp only [List.mem_cons] at he
             rcases he with he | he
-            · right; exact ⟨s, c, m, rfl, he⟩
+            · right; exact ⟨s, cms, rfl, he⟩
             · left; exact he
 
-theorem inv_hashWith {st : State} (h : Inv st) (sess : Option Sess) (cls : Cls) (p : Path) :
-    Inv (hashWith st sess cls p).1 := by
-  obtain ⟨hfs, hd, hm⟩ := hashWith_spec st sess cls p
+theorem inv_hashWith {st : State} (h : Inv st) (sess : Option Sess) (cls : Cls) (ps : List Path) :
+    Inv (hashWith st sess cls ps).1 := by
+  obtain ⟨hfs, hd, hm⟩ := hashWith_spec st sess cls ps
   constructor
   · intro e he
     rw [hfs]
-    rcases hd e he with h0 | ⟨c, m, hp, rfl⟩
+    rcases hd e he with h0 | ⟨cms, hp, rfl⟩
     · exact h.1 e h0
-    · intro c' hc'
+    · intro cms' hc' _
       simp only at hc'
       rw [hp] at hc'
       cases hc'; rfl
   · intro e he
     rw [hfs]
-    rcases hm e he with h0 | ⟨s, c, m, hp, rfl⟩
+    rcases hm e he with h0 | ⟨s, cms, hp, rfl⟩
     · exact h.2 e h0
-    · intro c' hc'
+    · intro cms' hc' _
       simp only at hc'
       rw [hp] at hc'
       cases hc'; rfl
 
-/-- Under the invariant a hash operation answers with the current content. -/
-theorem hashWith_out {st : State} (h : Inv st) (sess : Option Sess) (cls : Cls) (p : Path) :
-    (hashWith st sess cls p).2 = (st.fs p).map (·.1) := by
-  unfold hashWith
-  cases hp : st.fs p with
+/-- Under the invariant a hash operation answers with the current contents. -/
+theorem hashWith_out {st : State} (h : Inv st) (sess : Option Sess) (cls : Cls) (ps : List Path) :
+    (hashWith st sess cls ps).2 = (readAll st.fs ps).map (·.map Prod.fst) := by
+  unfold hashWith hashWithK keyOf
+  cases hp : readAll st.fs ps with
   | none => simp
-  | some cm =>
-    obtain ⟨c, m⟩ := cm
+  | some cms =>
     simp only [Option.map_some]
     split
     · rename_i v hv
@@ -202,58 +138,48 @@ theorem hashWith_out {st : State} (h : Inv st) (sess : Option Sess) (cls : Cls) 
       | some s =>
         simp only [Option.bind_some] at hv
         have hmem := mem_of_lookup hv
-        have := h.2 _ hmem c (by simpa using hp)
+        have := h.2 _ hmem cms (by simpa using hp) rfl
         simpa using this
     · split
       · rename_i v hv
         have hmem := mem_of_lookup hv
-        have := h.1 _ hmem c (by simpa using hp)
+        have := h.1 _ hmem cms (by simpa using hp) rfl
         simpa using this
       · rfl
 
-
-theorem inv_fs_change {st : State} (h : Inv st) (fs' : FS) (T : List Path)
-    (hframe : ∀ x, x ∉ T → fs' x = st.fs x ∨ fs' x = none)
-    (hf : ∀ p ∈ T, staleAt { st with fs := fs' } p = false) : Inv { st with fs := fs' } := by
-  constructor
-  · intro e he
-    by_cases hx : e.1.path ∈ T
-    · exact (staleAt_false.mp (hf _ hx)).1 e he rfl
-    · exact entryOK_of_frame (hframe _ hx) (h.1 e he)
-  · intro e he
-    by_cases hx : e.1.2.path ∈ T
-    · exact (staleAt_false.mp (hf _ hx)).2 e he rfl
-    · exact entryOK_of_frame (hframe _ hx) (h.2 e he)
-
-/-- One step keeps the invariant, provided the paths it touched are not left stale. -/
+/-- One step keeps the invariant, provided a file operation leaves no entry stale. -/
 theorem inv_step {st : State} (h : Inv st) (op : Op)
-    (hf : ∀ p ∈ touched op, staleAt (step st op).1 p = false) : Inv (step st op).1 := by
+    (hf : op.isFsOp = true → anyStale (step st op).1 = false) : Inv (step st op).1 := by
   cases op with
-  | hash s cls p => exact inv_hashWith h _ _ _
-  | hashFresh cls p => exact inv_hashWith h _ _ _
+  | hash s cls ps => exact inv_hashWith h _ _ _
+  | hashFresh cls ps => exact inv_hashWith h _ _ _
   | newProcess s =>
     exact ⟨h.1, fun e he => h.2 e (List.mem_filter.mp he).1⟩
   | cleanUp vs =>
     exact ⟨fun e he => h.1 e (List.mem_filter.mp he).1, h.2⟩
-  | write p c t => exact inv_fs_change h _ _ (fsStep_frame st.fs (.write p c t)) hf
-  | utime p t => exact inv_fs_change h _ _ (fsStep_frame st.fs (.utime p t)) hf
-  | rename p q => exact inv_fs_change h _ _ (fsStep_frame st.fs (.rename p q)) hf
-  | copy2 p q => exact inv_fs_change h _ _ (fsStep_frame st.fs (.copy2 p q)) hf
+  | write p c t => exact (inv_iff_noStale _).mpr (hf rfl)
+  | utime p t => exact (inv_iff_noStale _).mpr (hf rfl)
+  | rename p q => exact (inv_iff_noStale _).mpr (hf rfl)
+  | copy2 p q => exact (inv_iff_noStale _).mpr (hf rfl)
 
 /-- Under the invariant every operation answers as the reference does. -/
 theorem step_out {st : State} (h : Inv st) (op : Op) : (step st op).2 = specOut st.fs op := by
   cases op <;> simp only [step, specOut, hashWith_out h]
 
-/-- Invariant-style core of C09: from any state satisfying the invariant, a history that never leaves a touched
-    path stale is answered exactly as the reference answers it. -/
+/-- Invariant-style core of C09: from any state satisfying the invariant, a history whose file operations
+    never leave an entry stale is answered exactly as the reference answers it. -/
 theorem run_eq_spec_of_fresh (ops : List Op) : ∀ (st : State), Inv st → freshFrom st ops = true →
     run st ops = specRun st.fs ops ∧ Inv (exec st ops) := by
   induction ops with
   | nil => intro st h _; exact ⟨rfl, h⟩
   | cons op ops ih =>
     intro st h hf
-    simp only [freshFrom, Bool.and_eq_true, List.all_eq_true, Bool.not_eq_true'] at hf
-    have h' := inv_step h op hf.1
+    simp only [freshFrom, Bool.and_eq_true, Bool.or_eq_true, Bool.not_eq_true'] at hf
+    have h' := inv_step h op (by
+      intro hop
+      rcases hf.1 with h1 | h1
+      · rw [hop] at h1; cases h1
+      · exact h1)
     obtain ⟨ih1, ih2⟩ := ih _ h' hf.2
     refine ⟨?_, ih2⟩
     simp only [run, specRun, step_out h, ih1, step_fs]
